@@ -4,7 +4,7 @@ from __future__ import annotations
 import numpy as np
 
 from vmc import alpha, build
-from vmc.core import scratch
+from vmc.core import scratch, seamprobe
 
 ID = "C03"
 LEVEL = "model_checking"
@@ -77,7 +77,21 @@ def _is_nontrivial(M, w, n):
     return bool(M[i0:i1, j0:j1].any())
 
 
+def _engine_probe():
+    """smallest valid use of the internal query engine, made the way the engine legs make their calls"""
+    from cooler.core import CSRReader, DirectRangeQuery2D, FillLowerRangeQuery2D
+    a = np.array([0], dtype=np.int64)
+    reader = CSRReader({"bin1_id": a, "bin2_id": a, "count": a + 1}, np.array([0, 1]))
+    FillLowerRangeQuery2D(reader, "count", (0, 1, 0, 1), 10).get()
+    FillLowerRangeQuery2D(reader, "count", (0, 1, 0, 1), 10).to_sparse_matrix()
+    FillLowerRangeQuery2D(reader, "count", (0, 1, 0, 1), 10).to_array()
+    DirectRangeQuery2D(reader, "count", (0, 1, 0, 1), 10, return_index=True).get()["__index"]
+    DirectRangeQuery2D(reader, "count", (0, 1, 0, 1), 10, return_index=True).to_frame()
+
+
 def _engine_case(R, n, symm, cells, tag, only, chunks=None, frames=True):
+    if not seamprobe.internal_ok(R, "C03:engine", _engine_probe):
+        return
     from cooler.core import CSRReader, DirectRangeQuery2D, FillLowerRangeQuery2D
     pix = {k: (v if (k[0] + k[1]) % 2 == 0 else -v) for k, v in build.pattern_pix(n, cells).items()}      # values of both signs
     keys = sorted(pix)
@@ -311,6 +325,8 @@ def _longrow(R, symm, only):
     plus the diagonal; windows = single columns / short column ranges at and around 0, 4095, 4096, 4097, 4999, taken over
     row ranges that contain the long rows; reference = scipy CSR of the (completed) matrix"""
     import scipy.sparse as sp
+    if not seamprobe.internal_ok(R, "C03:engine", _engine_probe):
+        return
     from cooler.core import CSRReader, DirectRangeQuery2D, FillLowerRangeQuery2D
     n = 5000
     rows, cols = [], []
